@@ -27,5 +27,23 @@ out = ["# Seeded changes", "",
        "on the unchanged tree and fails with the change), then applied to /repo (`git apply`), the property's quick (and, if needed,",
        "thorough) check run, and the change undone (`git checkout -- .`). `replay-*.json` is the replay our check produced.", "",
        "| id | files touched | change (first line of the agent's notes) | confirmed | our check | first reacting component |", "|---|---|---|---|---|---|"] + rows
+out += ["", "## Missed at first, and what was strengthened", "",
+        "Six of the forty changes were not reported by the first evaluation run; each led to a change of the machinery, after which the",
+        "evaluation was repeated (the table above shows the final run):", "",
+        "* **C01-1** (share-class end-blocker pays an unbonding inside its completion second → EndBlock error): C01 only ran its own",
+        "  `halt` scenarios; it now also runs the `share`, `da`, `gauge`, `mint`, `govtally`, `fee` suites and treats every `no_halt`/`no_hang`",
+        "  verdict as a C01 violation.",
+        "* **C05-2** (`NextTickAfterCrossing` returns `nextTick` going down): the regenerated kernel changed and the model followed it, so the",
+        "  correspondence agreed; the theorem pinning the crossing conventions lived in C04 only. `Props/C04` is now a supporting",
+        "  obligation of C02, C05 and C06 (their check proves it too).",
+        "* **C02-2** (sign guard of `DecreaseLiquidity` dropped): the generator never sent a negative liquidity; the malformed stream now does.",
+        "* **C09-2** (fault counters of jailed / non-bonded validators survive the slash epoch): unreachable through messages (x/da jails only",
+        "  at the boundary, after resetting); new directed suite `daepoch` prepares such states and evaluates the property's sentence.",
+        "* **C12-2** (`if`→`else if` in the self-delegatable lockup's `TrackUndelegation`): that code cannot be reached on the real",
+        "  application at all (`getRootOwner` fails first), so no correspondence can tie its model; `Gen/Anchors.lean` now carries the",
+        "  source hashes of those four functions and `sd_unreachable_sources_pinned` pins them (an edit re-opens the obligation:",
+        "  `no-failing-input-found`).",
+        "* **C19-2** (`InitGenesis` skips empty gauge votes): the history never withdrew a vote; it now sends an empty `MsgVoteGauge`.",
+        "* C16-1/2 had a prose `demo_cmd.txt`; it was rewritten as the command it describes before confirming."]
 open(os.path.join(VERIF, "seeded", "README.md"), "w").write("\n".join(out) + "\n")
 print(len(rows), "rows;", sum("**caught**" in r for r in rows), "caught")
